@@ -14,7 +14,7 @@ func init() {
 		ID:          "C01",
 		Explanation: "(R1.1) Solver.Solve can only return Sat or Unsat: the range of every value that can flow into the status, minus what the loop guard excludes, is {Sat, Unsat}, on every path; (R1.2) every clause stored in the clause database (problem clauses and learned clauses) is registered in the watch lists by the function that stores it; (R1.4) every learned clause dropped from the database is removed from the watch lists in the same step; (R1.5) the model published by Solve is a fresh copy taken when Sat is concluded, never an alias of the working assignment.",
 		NotDecided:  "that the verdict is right and the model satisfies every clause: this depends on watch positions, learning, restarts and deletion timing, i.e. on the search history.",
-		Rules:       []ruleFn{ruleR1_1, ruleR1_2, ruleR1_4, ruleR1_5},
+		Rules:       []ruleFn{ruleR1_1, ruleR1_2, ruleR1_4, ruleR1_5, ruleR1_7, ruleR1_8},
 	})
 }
 
@@ -651,6 +651,18 @@ func ruleR1_5(w *World, r *Report) {
 			}
 			if !under {
 				bad = append(bad, "the snapshot at "+w.InstrPos(st)+" is not taken under status == Sat")
+			}
+			// ... and unconditionally so: every path through the Sat branch allocates a new snapshot
+			for _, ec := range dominatingConds(st.Block()) {
+				if k, eq, ok := statusTest(ec.Cond); ok && k == sat && eq == ec.True {
+					succ := ec.If.Block().Succs[0]
+					if !ec.True {
+						succ = ec.If.Block().Succs[1]
+					}
+					if !alwaysExecutedWith(st, succ.Instrs[0]) && succ != st.Block() {
+						bad = append(bad, "the snapshot is re-allocated only on some paths of the Sat branch (at "+w.InstrPos(st)+"): a snapshot of a previous answer, possibly with fewer variables, is reused")
+					}
+				}
 			}
 			// copy(load lastModel, load model) after the store, in the same block
 			copied := false
